@@ -359,8 +359,12 @@ pub fn check_counts(sc: &Scenario, h: &History, infos: &[SysInfo], ro: &RunOut, 
 }
 
 /// C12: thread-local systems on the caller, after everything else, in order, one at a time.
-/// Returns known-finding hits (thread-local system inside a batch executed by a pool worker).
-pub fn check_tl(h: &History, infos: &[SysInfo], caller_task: u32, out: &mut Vec<Violation>, kf: &mut Vec<String>) {
+/// A thread-local system inside a batch that runs on another task than the outer caller is
+/// reported with its own class (the known finding KF1 is matched on it).
+pub fn check_tl(h: &History, infos: &[SysInfo], ev: &[Event], out: &mut Vec<Violation>) {
+    // (seq, task, worker) of every top-level call
+    let calls: Vec<(u64, u32, bool)> = ev.iter().filter(|e| e.kind == Ev::CallBegin).map(|e| (e.seq, e.task, e.worker)).collect();
+    let caller_of = |seq: u64| calls.iter().rev().find(|c| c.0 < seq).map(|c| (c.1, c.2)).unwrap_or((0, false));
     for idx in h.by_inst.values() {
         let tls: Vec<&Occ> = idx.iter().map(|&i| &h.occs[i]).filter(|o| o.kind == Kind::Tl).collect();
         if tls.is_empty() {
@@ -369,27 +373,34 @@ pub fn check_tl(h: &History, infos: &[SysInfo], caller_task: u32, out: &mut Vec<
         let others: Vec<&Occ> = idx.iter().map(|&i| &h.occs[i]).filter(|o| o.kind != Kind::Tl).collect();
         for t in &tls {
             let depth = infos[t.sid].depth;
-            if t.task != caller_task || t.worker {
+            let (caller_task, caller_is_worker) = caller_of(t.enter);
+            if t.task != caller_task || (t.worker && !caller_is_worker) {
                 if depth >= 1 {
-                    kf.push(format!(
-                        "KF1 thread-local system {} at batch depth {} executed by task {} (worker={}), caller task is {}",
-                        t.sid, depth, t.task, t.worker, caller_task
+                    out.push(vio(
+                        "C12",
+                        "tl-in-batch-on-worker",
+                        format!(
+                            "thread-local system {} registered in a builder given to add_batch (batch depth {}) executed by task {} (pool worker: {}), the caller of dispatch is task {}",
+                            t.sid, depth, t.task, t.worker, caller_task
+                        ),
                     ));
                 } else {
                     out.push(vio(
                         "C12",
                         "tl-wrong-thread",
-                        format!("top-level thread-local system {} executed by task {} (pool worker: {}), caller task is {}", t.sid, t.task, t.worker, caller_task),
+                        format!("top-level thread-local system {} executed by task {} (pool worker: {}), the caller of dispatch is task {}", t.sid, t.task, t.worker, caller_task),
                     ));
                 }
             }
             for o in &others {
                 if !(o.end < t.enter) {
-                    out.push(vio(
+                    with_c07(
                         "C12",
+                        depth,
                         "tl-started-early",
                         format!("thread-local system {} entered at {} before system {} of the same dispatch had ended ({})", t.sid, t.enter, o.sid, o.end),
-                    ));
+                        out,
+                    );
                 }
             }
         }
@@ -402,6 +413,77 @@ pub fn check_tl(h: &History, infos: &[SysInfo], caller_task: u32, out: &mut Vec<
             }
         }
     }
+}
+
+/// C14: panic containment. `fired[i]` says whether fault i of the scenario was delivered.
+pub fn check_panics(sc: &Scenario, h: &History, infos: &[SysInfo], ro: &RunOut, fired: &[bool], out: &mut Vec<Violation>) {
+    let is_panic = |k: FaultKind| matches!(k, FaultKind::PanicBefore | FaultKind::PanicMid | FaultKind::PanicAfter);
+    for (ci, c) in ro.calls.iter().enumerate() {
+        let armed: Vec<usize> = sc.faults.iter().enumerate().filter(|(_, f)| f.call == ci && is_panic(f.kind)).map(|(i, _)| i).collect();
+        let fired_here: Vec<usize> = armed.iter().copied().filter(|&i| fired.get(i).copied().unwrap_or(false)).collect();
+        match (&c.panic, fired_here.is_empty()) {
+            (None, true) => {}
+            (None, false) => out.push(vio(
+                "C14",
+                "panic-swallowed",
+                format!("call #{} ({:?}) returned normally although system {} panicked during it", ci, c.call, sc.faults[fired_here[0]].sid),
+            )),
+            (Some(p), false) => {
+                let ok = fired_here.iter().any(|&i| p.contains(&format!("HPANIC sid={} call={} ", sc.faults[i].sid, ci)));
+                if !ok {
+                    out.push(vio(
+                        "C14",
+                        "wrong-payload",
+                        format!("call #{} panicked with {:?}, which is not the payload of a system that panicked ({:?})", ci, p.lines().next().unwrap_or(""), fired_here.iter().map(|&i| sc.faults[i].sid).collect::<Vec<_>>()),
+                    ));
+                }
+            }
+            (Some(_), true) => {} // a panic nobody injected: reported elsewhere (C01 borrow / C04 dispatch-panicked)
+        }
+        // run counters: nothing runs more than once per dispatch (top level)
+        let prev: Vec<u64> = if ci == 0 { vec![0; infos.len()] } else { ro.calls[ci - 1].runs_after.clone() };
+        for i in infos.iter().filter(|i| i.parent.is_none()) {
+            let d = c.runs_after[i.sid] - prev[i.sid];
+            if d > 1 {
+                out.push(vio("C14", "ran-twice", format!("call #{}: system {} ran {} times", ci, i.sid, d)));
+            }
+        }
+    }
+    // nobody who (transitively) depends on a panicking system enters in that dispatch instance
+    let mut tdeps: Vec<Vec<usize>> = vec![Vec::new(); infos.len()];
+    for i in infos.iter() {
+        let mut stack: Vec<usize> = i.deps.clone();
+        while let Some(d) = stack.pop() {
+            if !tdeps[i.sid].contains(&d) {
+                tdeps[i.sid].push(d);
+                stack.extend(infos[d].deps.iter().copied());
+            }
+        }
+    }
+    for idx in h.by_inst.values() {
+        let occs: Vec<&Occ> = idx.iter().map(|&i| &h.occs[i]).collect();
+        for p in occs.iter().filter(|o| o.panicked || panicked_inside(h, infos, o)) {
+            for b in occs.iter() {
+                if tdeps[b.sid].contains(&p.sid) {
+                    with_c07(
+                        "C14",
+                        infos[b.sid].depth,
+                        "dependent-of-panicked-ran",
+                        format!("system {} depends on system {}, which panicked in this dispatch, and still entered (at {})", b.sid, p.sid, b.enter),
+                        out,
+                    );
+                }
+            }
+        }
+    }
+}
+
+/// A library-driven batch has no exit hook: it panicked if something inside it did.
+fn panicked_inside(h: &History, infos: &[SysInfo], b: &Occ) -> bool {
+    if b.kind != Kind::Batch || b.exit.is_some() {
+        return false;
+    }
+    h.occs.iter().any(|o| o.panicked && o.enter > b.enter && o.enter <= b.end && is_descendant(infos, o.sid, b.sid))
 }
 
 /// Borrow panics / torn canaries in runs where no client fault was injected: C01.
